@@ -73,7 +73,11 @@ def main():
         old = {}
         if os.path.exists(out):
             old = json.load(open(out))
-        old.update(results)
+        for k, v in results.items():          # merge per check: a later own-property run keeps earlier all-props entries
+            if isinstance(old.get(k), dict) and isinstance(v, dict):
+                old[k].update(v)
+            else:
+                old[k] = v
         json.dump(old, open(out, 'w'), indent=1, sort_keys=True)
     with ThreadPoolExecutor(int(os.environ.get('MUT_PAR', '3'))) as ex:
         futs = [ex.submit(run_one, i, ms[i][0], ALL if allp else ms[i][1], tier) for i in ids]
